@@ -106,6 +106,22 @@ def transcript(log, c):
     return out
 
 
+def same_view(a, b):
+    """
+    Two transcripts of one connection show the same thing if the frames the handler writes (OK, NOTICE, close) come in the
+    same order and, per subscription id, the frames the sender writes (EVENT, EOSE) do.  How the two writers' frames
+    interleave on the socket is a matter of scheduling (validators and the LMDB reader run in threads) and is not compared.
+    """
+    def split(t):
+        by_handler = [x for x in t if x[0] not in ("EVENT", "EOSE")]
+        per_sid = {}
+        for x in t:
+            if x[0] in ("EVENT", "EOSE"):
+                per_sid.setdefault(x[1], []).append(x)
+        return by_handler, per_sid
+    return split(a) == split(b)
+
+
 def _worker(payload):
     backend, texts = payload
     from .. import relaydrv, storedrv
@@ -170,7 +186,7 @@ def _worker(payload):
             mine = [x for x in transcript(log, 1) if not (x[0] == "EVENT" and x[2] == "j0")]
             # what connection 1 sees depends on whether connection 0 went on to publish p0
             expect = base_alive if probes["EVENT"] else base_closed
-            lines.append({"a": "Other", "same": mine == expect, "_got": mine[:12], "_expected": expect[:12]})
+            lines.append({"a": "Other", "same": same_view(mine, expect), "_got": mine[:12], "_expected": expect[:12]})
             end = [ln for ln in log if ln["a"] == "End"]
             lines.append({"a": "End", "tasks": end[0]["tasks_left"] if end else 99, "handlers_ok": all(v["result"] == "returned" for v in info.values()),
                           "regs_empty": bool(end) and not any(end[0]["reg"].values()), "_errs": errs})
@@ -207,7 +223,9 @@ def _slow_worker(payload):
             s += [("msg", 1, {"m": "EVENT", "e": "p1"}), ("idle",)]
         s += [("idle",), ("disc", 0), ("idle",),
               ("msg", 1, {"m": "EVENT", "e": "p2"}), ("idle",), ("msg", 1, {"m": "EVENT", "e": "j0"}), ("idle",),
-              ("msg", 1, {"m": "REQ", "sid": "p1", "fs": [{"tags": {"t": ["b"]}}]}), ("idle",)]
+              # (a filter nothing stored matches: with the LMDB writer running in its own thread, whether a just-acknowledged
+              #  event is already visible to a query is a matter of timing and must not enter the comparison)
+              ("msg", 1, {"m": "REQ", "sid": "p1", "fs": [{"kinds": [7]}]}), ("idle",)]
         return s
 
     async def run(stalled):
@@ -227,7 +245,7 @@ def _slow_worker(payload):
                  {"a": "Probe", "c": 1, "answered": len(oks) >= 3 and all(f["ok"] for f in oks[-2:]), "_what": "EVENT x2 after the hang-up"},
                  {"a": "Probe", "c": 1, "answered": bool(eose), "_what": "REQ after the hang-up"}]
         mine = transcript(log, 1)
-        lines.append({"a": "Other", "same": mine == base, "_got": mine[-8:], "_expected": base[-8:]})
+        lines.append({"a": "Other", "same": same_view(mine, base), "_got": mine[-8:], "_expected": base[-8:]})
         end = [ln for ln in log if ln["a"] == "End"]
         lines.append({"a": "End", "tasks": end[0]["tasks_left"] if end else 99, "handlers_ok": all(v["result"] == "returned" for v in info.values()),
                       "regs_empty": bool(end) and not any(end[0]["reg"].values()), "_errs": errs})
